@@ -818,6 +818,99 @@ example : (rsRun { fo := 20000, fc := 20000, margin := 110, inMove := false }
         { pos := 4000, tstate := 2, dir := 1, rel := 1, target := 80, downT := 300000 } 0) [10000, 500000, 500000]).rel = 0 := by
   decide
 
+/-! ### the power limit, upward (mirror of `Plain` / `c10_power_limit`) -/
+
+def PlainU (s : RsT) : Prop :=
+  s.tstate = 0 ∧ s.pend = 0 ∧ (s.rel = 0 ∨ s.rel = 2) ∧ s.comm < 200000 ∧
+  (s.rel = 2 → s.upT > 600000000 → s.upT ≤ 600000000 + s.comm)
+
+theorem plain_tick_up (P : RsP) (hfo : P.fo = 0) (s : RsT) (dt : Nat) (h : PlainU s) :
+    PlainU (rsTick P s dt) ∧
+    ((rsTick P s dt).rel = 2 → s.rel = 2 ∧ (rsTick P s dt).upT = s.upT + dt) := by
+  obtain ⟨hts, hpend, hne2, hc, hJ⟩ := h
+  by_cases hrel : s.rel = 2
+  · have hacc : account P s dt = { s with upT := s.upT + dt, downT := 0 } := by
+      unfold account
+      rw [if_pos hrel]
+      simp only [hfo, calibrateStep, movePos_nofull]
+      simp [hrel]
+    have htask : taskStep P (account P s dt) = account P s dt := by
+      unfold taskStep; rw [hacc]; simp [hts]
+    unfold rsTick; rw [htask, hacc]
+    unfold commStep
+    simp only
+    by_cases hfire : s.comm + dt ≥ 200000
+    · rw [if_pos hfire]
+      by_cases hex : (s.upT + dt > 600000000 ∨ 0 > 600000000)
+      · rw [if_pos hex]
+        refine ⟨⟨by simp [relOff, hts], by simp [relOff], by simp [relOff], by simp [relOff], by simp [relOff]⟩, ?_⟩
+        intro h1; simp [relOff] at h1
+      · rw [if_neg hex]
+        refine ⟨⟨by simpa using hts, by simpa using hpend, by simp [hrel], by simp, ?_⟩, by intro _; exact ⟨hrel, rfl⟩⟩
+        intro _ h2; simp only at h2; omega
+    · rw [if_neg hfire]
+      refine ⟨⟨by simpa using hts, by simpa using hpend, by simp [hrel], by simp; omega, ?_⟩, by intro _; exact ⟨hrel, rfl⟩⟩
+      intro _ h2
+      simp only at h2 ⊢
+      have := hJ hrel
+      by_cases hprev : s.upT > 600000000
+      · have := this hprev; omega
+      · omega
+  · have hrel0 : s.rel = 0 := by rcases hne2 with h | h; exact h; exact absurd h hrel
+    have hacc : account P s dt = { s with upT := 0, downT := 0, sinceStop := s.sinceStop + dt } := by
+      unfold account; rw [if_neg (by omega), if_neg (by omega)]
+    have htask : taskStep P (account P s dt) = account P s dt := by
+      unfold taskStep; rw [hacc]; simp [hts]
+    unfold rsTick; rw [htask, hacc]
+    unfold commStep
+    simp only
+    by_cases hfire : s.comm + dt ≥ 200000
+    · rw [if_pos hfire, if_neg (by omega)]
+      exact ⟨⟨by simpa using hts, by simpa using hpend, by simp [hrel0], by simp, by simp [hrel0]⟩, by simp [hrel0]⟩
+    · rw [if_neg hfire]
+      exact ⟨⟨by simpa using hts, by simpa using hpend, by simp [hrel0], by simp; omega, by simp [hrel0]⟩, by simp [hrel0]⟩
+
+theorem plain_run_up (P : RsP) (hfo : P.fo = 0) : ∀ (dts : List Nat) (s : RsT), PlainU s →
+    PlainU (rsRun P s dts) ∧
+    ((rsRun P s dts).rel = 2 → s.rel = 2 ∧ (rsRun P s dts).upT = s.upT + C09.sum dts) := by
+  intro dts
+  induction dts with
+  | nil => intro s h; exact ⟨h, by intro h1; exact ⟨h1, by simp [rsRun, C09.sum]⟩⟩
+  | cons dt dts ih =>
+    intro s h
+    unfold rsRun
+    have t := plain_tick_up P hfo s dt h
+    have r := ih (rsTick P s dt) t.1
+    refine ⟨r.1, ?_⟩
+    intro h1
+    have r2 := r.2 h1
+    have t2 := t.2 r2.1
+    exact ⟨t2.1, by rw [r2.2, t2.2]; simp [C09.sum]; omega⟩
+
+/-- C10 (power limit, upward): a shutter driven up by a plain command while no opening time is configured — for every
+    sequence of accounting callbacks, an output still on means the run time so far is below 600.2 s -/
+theorem c10_power_limit_up (P : RsP) (hfo : P.fo = 0) (s : RsT) (dts : List Nat)
+    (h0 : s.rel = 2 ∧ s.upT = 0 ∧ s.tstate = 0 ∧ s.pend = 0 ∧ s.comm < 200000) :
+    (rsRun P s dts).rel = 2 → C09.sum dts < 600200000 := by
+  intro h1
+  have hp : PlainU s := ⟨h0.2.2.1, h0.2.2.2.1, Or.inr h0.1, h0.2.2.2.2, by intro _ h; omega⟩
+  have r := plain_run_up P hfo dts s hp
+  have e := (r.2 h1).2
+  obtain ⟨_, _, _, hc, hJ⟩ := r.1
+  have := hJ h1
+  by_cases hx : (rsRun P s dts).upT > 600000000
+  · have := this hx; omega
+  · omega
+
+theorem c10_power_limit_off_up (P : RsP) (hfo : P.fo = 0) (s : RsT) (dts : List Nat)
+    (h0 : s.rel = 2 ∧ s.upT = 0 ∧ s.tstate = 0 ∧ s.pend = 0 ∧ s.comm < 200000)
+    (hT : 600200000 ≤ C09.sum dts) : (rsRun P s dts).rel = 0 := by
+  have hp : PlainU s := ⟨h0.2.2.1, h0.2.2.2.1, Or.inr h0.1, h0.2.2.2.2, by intro _ h; omega⟩
+  have r := plain_run_up P hfo dts s hp
+  rcases r.1.2.2.1 with h | h
+  · exact h
+  · have := c10_power_limit_up P hfo s dts h0 h; omega
+
 /-! ### idle stays idle - with or without calibration, roller shutter and facade blind -/
 
 /-- nothing energised, nothing pending, no task -/
